@@ -717,6 +717,9 @@ class WTrig(World):
         A(("bulkupd a + g todata + rem", [["BulkUpdateRecord", "T", R[:2], {"a": [5, 6]}],
                                           ["ModifyColumn", "T", "g", {"isFormula": False}],
                                           ["RemoveRecord", "T", R[0]]]))
+    if R and ht('a') and ht('b'):
+      # a row id present before and after the replacement: its trigger cells are computed anew
+      A(("replace T keeping id", [["ReplaceTableData", "T", [R[0], 7], {"a": [4, 5], "b": [1, 2]}]]))
     for r in R[:1]:
       A(("rem T%d" % r, [["RemoveRecord", "T", r]]))
       if ht('a'):
